@@ -7,7 +7,7 @@ def run(tier, seed):
     run = Run("C11", tier, seed)
     build_harness()
     th = tier == "thorough"
-    recs, matrix = sweep(run, "C11", seed, 3, 600 if th else 60, 7 if th else 5)
+    recs, matrix = sweep(run, "C11", seed, 3, 2500 if th else 200, 7 if th else 5)
     run.extra["applicability_matrix"] = matrix
     mid = recs[len(recs) // 2]
     run.sample({k: mid[k] for k in list(mid)[:9]})
